@@ -155,8 +155,13 @@ impl Tok {
     pub fn render(&self) -> String {
         match self {
             Tok::Cmp { op, blanks, p } => {
-                let b = if *op == Op::Bare { 0 } else { *blanks as usize };
-                format!("{}{}{}", op.text(), " ".repeat(b), p.render())
+                // blanks after the operator: 0..2 spaces, 3 = one tab
+                let ws = match (*op, *blanks) {
+                    (Op::Bare, _) | (_, 0) => String::new(),
+                    (_, 3) => "\t".to_string(),
+                    (_, b) => " ".repeat(b as usize),
+                };
+                format!("{}{}{}", op.text(), ws, p.render())
             }
             Tok::Garbage(g) => g.clone(),
         }
@@ -480,7 +485,7 @@ pub fn op() -> BoxedStrategy<Op> {
 pub fn tok(cfg: &GenCfg) -> BoxedStrategy<Tok> {
     let c1 = cfg.clone();
     let cmp = op().prop_flat_map(move |o| {
-        (Just(o), prop_oneof![3 => Just(0u8), 1 => Just(1u8), 1 => Just(2u8)], partial(&c1, o != Op::Bare)).prop_map(|(op, blanks, p)| Tok::Cmp { op, blanks, p })
+        (Just(o), prop_oneof![6 => Just(0u8), 2 => Just(1u8), 2 => Just(2u8), 1 => Just(3u8)], partial(&c1, o != Op::Bare)).prop_map(|(op, blanks, p)| Tok::Cmp { op, blanks, p })
     });
     if cfg.allow_garbage {
         prop_oneof![12 => cmp, 1 => select(GARBAGE.to_vec()).prop_map(|g| Tok::Garbage(g.to_string()))].boxed()
